@@ -822,7 +822,7 @@ DR_SCOPE = {
 	'C17': ([r'routing/gossip\.rs$', r'routing/utxo\.rs$'], 10),
 	'C18': ([r'offers/'], 20),
 	'C19': ([r'util/persist\.rs$', r'lightning-persister/'], 5),
-	'C20': ([r'lightning-block-sync/'], 5),
+	'C20': ([r'lightning-block-sync/'], 1),
 }
 
 def dr_for_property(F, pid, rule_id):
